@@ -70,16 +70,18 @@ Section GCXS.
   Definition gcxs_wfb (g : gcxs) : bool :=
     let sh := g_shape g in
     let nnz := Z.of_nat (length (g_data g)) in
-    (length (g_indices g) =? length (g_data g))%nat &&
     forallb (fun d => 0 <=? d) sh &&
     match sh with
-    | [] => true
-    | [d] => match g_caxes g with [] => true | _ => false end
+    | [] => (* 0-d: at most one stored element; the code keeps an empty (0, nnz) coords array *)
+            (length (g_data g) <=? 1)%nat && match g_indices g with [] => true | _ => false end
+    | [d] => (length (g_indices g) =? length (g_data g))%nat
+             && match g_caxes g with [] => true | _ => false end
              && forallb (fun i => (0 <=? i) && (i <? d)) (g_indices g)
              && strictly_increasing (g_indices g)
     | _ =>
       let ca := g_caxes g in
       let ndim := Z.of_nat (length sh) in
+      (length (g_indices g) =? length (g_data g))%nat &&
       negb (match ca with [] => true | _ => false end) &&
       forallb (fun a => (0 <=? a) && (a <? ndim)) ca &&
       (Z.of_nat (length ca) <? ndim) &&
